@@ -503,3 +503,19 @@ more("C07",
 more("C09",
      text="Undefined bands are asymmetric up to 60 % of an input (whole tile rows / columns of a segment undefined); every deepest-level FITS tile's DATAMIN / DATAMAX cards are "
           "compared with the range of the pixels TLC expects in it and with the single-image tiling.")
+more("C20",
+     text="HDU indices as Python allows them (negative = from the end, resolved per file: Resolve; entries in lists, tuples, NumPy integers); file names as the file system allows "
+          "them (brackets, * / ?, spaces, leading dash, double dots, non-ASCII; absolute, respelled, relative, pathlib.Path) at every list position; spec/CollectionReuse.tla: the "
+          "caller's list / CollectionLoader reused for a second collection over other files - ArgumentsUntouched, SecondHasNoMemory, the write-back design refuted - replayed through "
+          "load, SimpleFitsCollection, a shared CollectionLoader, tile_fits and the CLI.",
+     note="Reuse model: 3 files (1 / 3 / 4 HDUs), <= 2 paths, indices -4..3; a NumPy integer as the SCALAR hdu_index is rejected by the code (documented type int) and not judged; a "
+          "modified argument object is reported as drift, its consequence (second collection wrong) as the violation.")
+more("C17",
+     note="History inputs include a single-tile data set (TileLevels 0, SkyImage) and every tile_fits input class of the workflow runs is called a second time identically, so the "
+          "returned-vs-written comparison over every ImageSet / Place trait covers descriptions whose tiling fields coincide with Builder defaults; a workflow that raises is reported "
+          "as drift, not judged.")
+more("C15",
+     text="The tile-file machine also carries the same position stored in a second format in the same directory (written, masked and read with an explicit format); TLC checks that a "
+          "call about one format's file never changes the other's (OtherFormatUntouched). The file and two-position histories are replayed in pyramid directories whose names rotate "
+          "over glob / regex / format metacharacters, spaces, dots, a leading dash, non-ASCII and nested names, spelled absolute, relative and with a trailing slash.",
+     note="The directory name is not modelled in Mask.tla (a tile file is a function of position and format); it is an environment dimension of the replay: 10 names x 3 spellings.")
